@@ -17,7 +17,8 @@ Proof.
   unfold predict. rewrite <- trace_snd. destruct (trace v (c_ops c) (init_of v c)). reflexivity.
 Qed.
 Lemma predict_file v c : p_file (predict v c) =
-  match fs_get (s_fs (run v (c_ops c) (init_of v c))) FKv with Some (DEntries l) => Some (badger_load l) | _ => None end.
+  match fs_get (s_fs (run v (c_ops c) (init_of v c))) (if c_rsync c then FCopy else FKv) with
+  | Some (DEntries l) => Some (badger_load l) | _ => None end.
 Proof.
   unfold predict. rewrite <- trace_snd. destruct (trace v (c_ops c) (init_of v c)). reflexivity.
 Qed.
@@ -25,7 +26,8 @@ Lemma trace_fst_cons v o ops st :
   fst (trace v (o :: ops) st) =
   {| x_cursor := s_cursor (fst (step v st o)); x_disk := seen_file (s_fs (fst (step v st o))); x_res := snd (step v st o);
      x_grew := negb (optnat_eqb (kv_len (s_fs st)) (kv_len (s_fs (fst (step v st o)))));
-     x_locid := loc_id (s_fs (fst (step v st o))); x_touched := negb (fs_eqb (s_fs st) (s_fs (fst (step v st o)))) |}
+     x_locid := loc_id (s_fs (fst (step v st o))); x_touched := negb (fs_eqb (s_fs st) (s_fs (fst (step v st o))));
+     x_sid := s_store_id (fst (step v st o)); x_running := s_running (fst (step v st o)) |}
   :: fst (trace v ops (fst (step v st o))).
 Proof. cbn [trace]. destruct (step v st o) as [st1 r]. cbn [fst snd]. destruct (trace v ops st1). reflexivity. Qed.
 
@@ -46,14 +48,6 @@ Proof.
   destruct d; cbn; [apply list_eqb_refl, entry_eqb_refl | apply N.eqb_refl | apply bytes_eqb_refl].
 Qed.
 
-Lemma step_store_id v st o : s_store_id (fst (step v st o)) = s_store_id st.
-Proof.
-  destruct o; cbn [step fst s_store_id with_fs]; try reflexivity.
-  unfold run_backup. destruct (s_running st); [reflexivity|].
-  destruct (valid_location st) as [ok f1]. destruct ok; cbn [fst s_store_id]; [|reflexivity].
-  now destruct (dnb_frame v (with_fs st f1)) as (_ & -> & _).
-Qed.
-
 (** for EVERY history, including changes of the location's id file by the environment between runs
     and across restarts, and under every variant: a hub step taken while the location carries a
     different id changes no file of the location and is not a returned run *)
@@ -61,7 +55,7 @@ Theorem trace_foreign_ok v ops : forall st,
   foreign_ok (s_store_id st) (loc_id (s_fs st)) ops (fst (trace v ops st)) = true.
 Proof.
   induction ops as [|o ops IH]; intros st; [reflexivity|].
-  rewrite trace_fst_cons. cbn [foreign_ok x_locid x_touched x_res].
+  rewrite trace_fst_cons. cbn [foreign_ok x_locid x_touched x_res x_sid].
   apply andb_true_iff; split.
   - destruct (is_env o) eqn:He; [reflexivity|].
     destruct (is_foreign (s_store_id st) (loc_id (s_fs st))) eqn:F; [|reflexivity].
@@ -71,7 +65,41 @@ Proof.
     destruct (foreign_step v st o He Fo) as (A & _ & _ & R).
     rewrite A, fs_eqb_refl. cbn. destruct (snd (step v st o) =? R_RETURNED) eqn:E; [|reflexivity].
     apply N.eqb_eq in E. contradiction.
-  - rewrite <- (step_store_id v st o). apply IH.
+  - apply IH.
+Qed.
+
+(** the run-state machine: in every history, under every variant, a tick is skipped only after a
+    tick of the same process panicked on an invalid location *)
+Lemma skipped_was_running v st o : snd (step v st o) = R_SKIPPED -> s_running st = true.
+Proof.
+  destruct o as [m ds k x del| |m|b| |post|ok|m' sid']; cbn [step snd]; try discriminate.
+  - unfold run_backup. destruct (s_running st); [reflexivity|].
+    destruct (valid_location st) as [ok f1]. destruct ok; discriminate.
+  - destruct (conc_shape v st post) as [ws E]. cbn [step] in E. rewrite E. cbn [snd].
+    unfold run_backup. destruct (s_running st); [reflexivity|].
+    destruct (valid_location st) as [ok f1]. destruct ok; discriminate.
+  - unfold run_backup_rsync. destruct (s_running st); [reflexivity|].
+    destruct (valid_location st) as [valid f1]. destruct valid; [destruct ok|]; discriminate.
+Qed.
+
+Lemma restart_res v st o : is_restart o = true -> snd (step v st o) = R_NONE.
+Proof. destruct o; try discriminate. reflexivity. Qed.
+
+Theorem trace_skip_ok v ops : forall st stuck, (s_running st = true -> stuck = true) ->
+  skip_ok stuck ops (fst (trace v ops st)) = true.
+Proof.
+  induction ops as [|o ops IH]; intros st stuck Hs; [reflexivity|].
+  rewrite trace_fst_cons. cbn [skip_ok x_res].
+  apply andb_true_iff; split.
+  - destruct (snd (step v st o) =? R_SKIPPED) eqn:E; [|reflexivity].
+    apply N.eqb_eq in E. apply Hs. now apply (skipped_was_running v st o).
+  - apply IH. intros Hr.
+    destruct (running_released v st o Hr) as [[Hb Hn]|Hp].
+    + change (is_restart_op o) with (is_restart o) in Hn. rewrite Hn.
+      destruct ((snd (step v st o) =? R_REFUSED) || (snd (step v st o) =? 3)); [reflexivity | now apply Hs].
+    + destruct (is_restart o) eqn:Er.
+      * rewrite (restart_res v st o Er) in Hp. discriminate.
+      * rewrite Hp. reflexivity.
 Qed.
 
 Lemma optbytes_eqb_eq a b : optbytes_eqb a b = true <-> a = b.
@@ -83,8 +111,8 @@ Proof. destruct a, b; cbn; try (split; congruence). rewrite N.eqb_eq. split; con
 Lemma step_eqb_eq a b : step_eqb a b = true <-> a = b.
 Proof.
   destruct a, b. unfold step_eqb. cbn.
-  rewrite !andb_true_iff, !N.eqb_eq, optN_eqb_eq, optbytes_eqb_eq, !eqb_true_iff.
-  split; [intros [[[[[-> ->] ->] ->] ->] ->]; reflexivity | intros [= -> -> -> -> -> ->]; auto 10].
+  rewrite !andb_true_iff, !N.eqb_eq, optN_eqb_eq, optbytes_eqb_eq, bytes_eqb_eq, !eqb_true_iff.
+  split; [intros [[[[[[[-> ->] ->] ->] ->] ->] ->] ->]; reflexivity | intros [= -> -> -> -> -> -> -> ->]; auto 12].
 Qed.
 
 Lemma subset_b_incl a b : incl a b -> subset_b a b = true.
@@ -107,35 +135,57 @@ Proof.
   intros H. unfold listing. induction universe as [|dk u IH]; cbn; [reflexivity|]. now rewrite H, IH.
 Qed.
 
-Theorem agree_fixed_spec c : agree fixed c = true -> spec_ok c = true.
+(** the cases the link theorem speaks about: a native-mode history without delete-all (that
+    situation is theorem [restore_after_delete]), or an rsync-mode history *)
+Definition case_wf (c : tcase) : bool :=
+  if c_rsync c then forallb (fun o => negb (is_native o)) (c_ops c) else forallb plain (c_ops c).
+
+Theorem agree_fixed_spec c : case_wf c = true -> agree fixed c = true -> spec_ok c = true.
 Proof.
-  unfold agree, spec_ok. intros H.
+  unfold agree, spec_ok, case_wf. intros Hwf H.
   apply andb_true_iff in H. destruct H as [H H4].
   apply andb_true_iff in H. destruct H as [H H3].
+  apply andb_true_iff in H. destruct H as [H _].
   apply andb_true_iff in H. destruct H as [H H2].
   apply andb_true_iff in H. destruct H as [_ H1].
   rewrite predict_snap in H3. rewrite predict_steps in H2. rewrite predict_locid0 in H1.
   apply optbytes_eqb_eq in H1. apply (list_eqb_eq step_eqb step_eqb_eq) in H2.
-  apply andb_true_iff; split.
+  apply andb_true_iff; split; [apply andb_true_iff; split|].
   - rewrite <- H1, <- H2. exact (trace_foreign_ok fixed (c_ops c) (init_of fixed c)).
+  - rewrite <- H2. apply trace_skip_ok. discriminate.
   - destruct (c_foreign c) eqn:F; [reflexivity|].
     apply andb_true_iff in H4. destruct H4 as [H4 H5].
     unfold rich_claim in H5. rewrite predict_snap in H5. rewrite predict_file in H4, H5.
     unfold init_of in *. rewrite F in *.
-    pose proof (Inv_run fixed (c_ops c) eq_refl _ (Inv_init fixed (c_m0 c) (c_sid c))) as I.
     set (st := run fixed (c_ops c) (init fixed (c_m0 c) (c_sid c) [])) in *.
-    destruct (s_snap st) as [s|] eqn:Es.
-    + destruct (inv_snap _ _ I s Es) as (A & B & C & D).
-      rewrite A in H4, H5. unfold badger_load in *.
-      assert (Hset : sets_eqb (kvfile (s_fs st)) s = true).
-      { unfold sets_eqb. now rewrite !subset_b_incl. }
-      rewrite Hset in H5.
-      cbn [option_map] in H3, H4.
-      destruct (o_snap c) as [rs|]; [|discriminate]. destruct (o_restored c) as [rr|]; [|discriminate].
-      cbn [optrows_eqb] in H3, H4. apply rows_eqb_eq in H3, H4. subst rs rr.
-      apply andb_true_iff in H5. destruct H5 as [H5 _].
-      rewrite H5, andb_true_r. apply rows_eqb_eq. apply listing_ext.
-      intros ds k. apply latest_set_eq; auto.
-      eapply uniq_incl; [exact D | exact (inv_uniq _ _ I)].
-    + cbn [option_map optrows_eqb] in H3. destruct (o_snap c); [discriminate | reflexivity].
+    destruct (c_rsync c) eqn:Rs.
+    + (* rsync mode: the copy is the snapshot *)
+      assert (R : restore_ok_rsync st).
+      { apply restore_rsync; [exact Hwf | intros s; discriminate]. }
+      destruct (s_snap st) as [s|] eqn:Es.
+      * rewrite (R s Es) in H4, H5. unfold badger_load in *.
+        assert (Hset : sets_eqb s s = true).
+        { unfold sets_eqb. now rewrite !subset_b_incl by apply incl_refl. }
+        rewrite Hset in H5. cbn [option_map] in H3, H4.
+        destruct (o_snap c) as [rs|]; [|discriminate]. destruct (o_restored c) as [rr|]; [|discriminate].
+        cbn [optrows_eqb] in H3, H4. apply rows_eqb_eq in H3, H4. subst rs rr.
+        apply andb_true_iff in H5. destruct H5 as [H5 _].
+        rewrite H5, andb_true_r. now apply rows_eqb_eq.
+      * cbn [option_map optrows_eqb] in H3. destruct (o_snap c); [discriminate | reflexivity].
+    + pose proof (Inv_run fixed (c_ops c) eq_refl Hwf _ (Inv_init fixed (c_m0 c) (c_sid c))) as I.
+      fold st in I.
+      destruct (s_snap st) as [s|] eqn:Es.
+      * destruct (inv_snap _ _ I s Es) as (A & B & C & D).
+        rewrite A in H4, H5. unfold badger_load in *.
+        assert (Hset : sets_eqb (kvfile (s_fs st)) s = true).
+        { unfold sets_eqb. now rewrite !subset_b_incl. }
+        rewrite Hset in H5.
+        cbn [option_map] in H3, H4.
+        destruct (o_snap c) as [rs|]; [|discriminate]. destruct (o_restored c) as [rr|]; [|discriminate].
+        cbn [optrows_eqb] in H3, H4. apply rows_eqb_eq in H3, H4. subst rs rr.
+        apply andb_true_iff in H5. destruct H5 as [H5 _].
+        rewrite H5, andb_true_r. apply rows_eqb_eq. apply listing_ext.
+        intros ds k. apply latest_set_eq; auto.
+        eapply uniq_incl; [exact D | exact (inv_uniq _ _ I)].
+      * cbn [option_map optrows_eqb] in H3. destruct (o_snap c); [discriminate | reflexivity].
 Qed.
